@@ -21,6 +21,54 @@ from .pyrtlexceptions import PyrtlError, PyrtlInternalError
 #   |__) |___ \__/ \__, |  \
 #
 
+def _verif_iter_seed():
+    """ Verification hook (add-only): when PYRTL_VERIF=1 and PYRTL_VERIF_ITER_SEED=<n> are set
+    in the environment, Block.__iter__ breaks ties pseudo-randomly (seeded) instead of by set
+    order.  With the guard off this returns None and nothing else changes. """
+    import os
+    if os.environ.get('PYRTL_VERIF') != '1':
+        return None
+    seed = os.environ.get('PYRTL_VERIF_ITER_SEED')
+    if seed is None:
+        return None
+    try:
+        return int(seed)
+    except ValueError:
+        return None
+
+
+class _VerifPopSet(object):
+    """ Set-like object whose pop() picks a pseudo-random element (candidates ordered by name
+    so that a seed reproduces the same schedule).  Only used under the PYRTL_VERIF hook. """
+
+    def __init__(self, items, rng):
+        self._items = set(items)
+        self._rng = rng
+
+    def __len__(self):
+        return len(self._items)
+
+    def pop(self):
+        cands = sorted(self._items, key=lambda w: (w.name, id(w)))
+        choice = cands[self._rng.randrange(len(cands))]
+        self._items.remove(choice)
+        return choice
+
+    def update(self, others):
+        self._items.update(others)
+
+
+def _verif_shuffled_iteration(to_clear, dest_dict):
+    import random
+    rng = random.Random(_verif_iter_seed())
+    shuffled = {}
+    for wire in sorted(dest_dict, key=lambda w: (w.name, id(w))):
+        readers = list(dest_dict[wire])
+        rng.shuffle(readers)
+        shuffled[wire] = readers
+    return _VerifPopSet(to_clear, rng), shuffled
+
+
 class LogicNet(collections.namedtuple('LogicNet', ['op', 'op_param', 'args', 'dests'])):
     """ The basic immutable datatype for storing a "net" in a netlist.
 
@@ -569,6 +617,8 @@ class Block(object):
         from .wire import Input, Const, Register
         src_dict, dest_dict = self.net_connections()
         to_clear = self.wirevector_subset((Input, Const, Register))
+        if _verif_iter_seed() is not None:  # PYRTL_VERIF hook: pseudo-random tie-breaks
+            to_clear, dest_dict = _verif_shuffled_iteration(to_clear, dest_dict)
         cleared = set()
         remaining = self.logic.copy()
         try:
